@@ -494,6 +494,104 @@ pub fn run(prop: &str, tier: &str, replay: Option<&str>) -> i32 {
         });
         rep.add(sec);
     }
+    // 4c. DnType::from_oid: exactly the six registered OIDs name the six standard types; every other OID (shorter,
+    // longer, sibling, unrelated) stays a custom type carrying that OID, and is encoded as that OID
+    {
+        let mut oids: Vec<Vec<u64>> = vec![vec![], vec![2], vec![2, 5], vec![2, 5, 4], vec![1, 2, 840, 113549, 1, 9, 1], vec![0, 9, 2342, 19200300, 100, 1, 25]];
+        for x in 0..=66u64 {
+            oids.push(vec![2, 5, 4, x]);
+            for y in [0u64, 1, 3, 7, 127, 128] {
+                oids.push(vec![2, 5, 4, x, y]);
+            }
+            oids.push(vec![2, 5, x, 3]);
+            oids.push(vec![2, 4, 4, x]);
+            oids.push(vec![1, 5, 4, x]);
+        }
+        for x in [3u64, 6, 7, 8, 10, 11] {
+            oids.push(vec![2, 5, 4, x, 0, 0]);
+            oids.push(vec![2, 5, 4, x, 1, 2, 3]);
+        }
+        let std6: [(u64, rcgen::DnType); 6] = [(6, rcgen::DnType::CountryName), (7, rcgen::DnType::LocalityName), (8, rcgen::DnType::StateOrProvinceName), (10, rcgen::DnType::OrganizationName), (11, rcgen::DnType::OrganizationalUnitName), (3, rcgen::DnType::CommonName)];
+        let kp = match &ctx.subject {
+            SubjectSrc::Pair(k) => k,
+            _ => unreachable!(),
+        };
+        let sec = Section::new("from_oid/standard and neighbouring OIDs", &format!("{} OIDs: 2.5.4.x for x in 0..=66, their extensions 2.5.4.x.y, prefixes, siblings in other arcs and unrelated OIDs through DnType::from_oid; a name built from the result encodes the attribute under exactly the given OID", oids.len()));
+        run::sweep_cases(&sec, &oids, &|o| format!("{:?}", o), &|o| {
+            let mut out = Outcome::default();
+            let want = std6.iter().find(|(x, _)| o.as_slice() == [2, 5, 4, *x]).map(|(_, t)| t.clone()).unwrap_or_else(|| rcgen::DnType::CustomDnType(o.clone()));
+            let got = match guarded(|| rcgen::DnType::from_oid(o)) {
+                Ok(g) => g,
+                Err(p) => {
+                    out.findings.push(Finding::new("DN-FROM-OID", "DnType::from_oid", format!("panic: {}", p)));
+                    return out;
+                }
+            };
+            out.transitions = 1;
+            out.digest = fnv(format!("{:?}", got).as_bytes());
+            if got != want {
+                out.findings.push(Finding::new("DN-FROM-OID", "DnType::from_oid", format!("from_oid({:?}) = {:?}, expected {:?}", o, got, want)));
+            }
+            // encoded under the same OID (when the OID is encodable at all)
+            if o.len() >= 2 && o[0] <= 2 && (o[0] == 2 || o[1] < 40) {
+                let mut dn = DistinguishedName::new();
+                dn.push(got, "v");
+                let mut p = rcgen::CertificateParams::default();
+                p.distinguished_name = dn;
+                if let Ok(Ok(cert)) = guarded(|| p.self_signed(kp)) {
+                    match decode_cert(cert.der()).value {
+                        Some(abs) if abs.subject.len() == 1 && abs.subject[0].len() == 1 && &abs.subject[0][0].oid == o => {}
+                        Some(abs) => out.findings.push(Finding::new("DN-FROM-OID", "tbs.subject", format!("attribute built from OID {:?} is encoded as {:?}", o, abs.subject))),
+                        None => out.findings.push(Finding::new("DECODE-FAILED", "certificate", format!("{:?}", o))),
+                    }
+                }
+            }
+            out
+        });
+        rep.add(sec);
+    }
+    // 4d. clone and clone_from between every pair of reachable states (3 types): the target becomes equal to the source
+    // in every observable respect, whatever it held before
+    {
+        let a3 = Alphabet::new(3);
+        let ops3 = ops(3);
+        // reachable states of the 3-type alphabet by BFS over histories
+        let mut seen3: std::collections::BTreeMap<RefDn, Vec<Op>> = std::collections::BTreeMap::new();
+        let mut frontier: Vec<Vec<Op>> = vec![vec![]];
+        seen3.insert(vec![], vec![]);
+        while let Some(h) = frontier.pop() {
+            for op in &ops3 {
+                let mut h2 = h.clone();
+                h2.push(*op);
+                let (_, m) = a3.build(&h2);
+                if !seen3.contains_key(&m) {
+                    seen3.insert(m, h2.clone());
+                    frontier.push(h2);
+                }
+            }
+        }
+        let hists: Vec<Vec<Op>> = seen3.values().cloned().collect();
+        let built: Vec<(DistinguishedName, RefDn)> = hists.iter().map(|h| a3.build(h)).collect();
+        let idx: Vec<usize> = (0..built.len()).collect();
+        let sec = Section::new("pairs/clone_from", &format!("for all ordered pairs of the {} reachable states over 3 types x {} values: a.clone_from(&b) makes a equal to b (==, enumeration, lookups, internal state), and b.clone() equals b", built.len(), values().len()));
+        run::sweep_cases(&sec, &idx, &|i| format!("target [{}]", hist_label(&hists[*i])), &|i| {
+            let mut out = Outcome::default();
+            let (a, _) = &built[*i];
+            for (b, mb) in &built {
+                let mut t = a.clone();
+                t.clone_from(b);
+                let c = b.clone();
+                if t != *b || a3.enumerate(&t) != *mb || a3.check_state(&t, mb).is_some() || c != *b || a3.check_state(&c, mb).is_some() {
+                    out.findings.push(Finding::new("DN-CLONE", "DistinguishedName::clone_from / clone", format!("target after clone_from enumerates {:?}, source {:?} (== is {})", a3.enumerate(&t), mb, t == *b)));
+                    break;
+                }
+            }
+            out.transitions = 2 * built.len() as u64;
+            out.digest = fnv(format!("{}", i).as_bytes());
+            out
+        });
+        rep.add(sec);
+    }
     // 5. stateright BFS and DFS: counts must agree with the own BFS
     {
         let sec = Section::new("stateright/bfs+dfs", "the same model explored by stateright BFS and DFS; unique state counts must equal the own BFS's");
